@@ -208,6 +208,10 @@ StakeClass(s, c, tx, h) ==
     ELSE IF tx.signer # tx.app THEN "transfer"      \* a transfer request that is refused
     ELSE "new"
 
+\* why an authenticated stake request is refused ("ok" = accepted), for attribution: the admission limits
+\* (chains, minimum, funds, MaxApplications) belong to C28 on the fresh-stake AND on the edit path
+StakeWhy(s, c, tx, h) == IF TransferValid(s, c, tx, h) THEN "ok" ELSE StakeError(s, c, tx, h)
+
 HandleStake(s, c, tx, h, orc) ==
     IF TransferValid(s, c, tx, h)
       THEN [ok |-> TRUE, st |-> TransferApp(s, tx.signer, tx.app)]
@@ -253,6 +257,9 @@ AppsDeliver(s, c, tx, h, t, orc) ==
 AppsDeliverOK(s, c, tx, h, t) ==
     /\ AppsAnteClass(s, c, tx, h) = "ok"
     /\ AppsHandle(ChargeFee(s, tx), c, tx, h, t, 0).ok
+AppsWhy(s, c, tx, h) ==
+    IF AppsAnteClass(s, c, tx, h) # "ok" \/ tx.kind # "app_stake" THEN ""
+    ELSE StakeWhy(ChargeFee(s, tx), c, tx, h)
 AppsClass(s, c, tx, h) ==
     IF AppsAnteClass(s, c, tx, h) # "ok" THEN "rejected"
     ELSE IF tx.kind = "app_stake" THEN StakeClass(ChargeFee(s, tx), c, tx, h)
@@ -316,6 +323,13 @@ Inv_C28_Relays(s, c) ==
     RelaysExact(c) => \A a \in DOMAIN s.app :
         s.app[a].status # UNSTAKED => s.app[a].maxRelays = CalcRelays(c, s.app[a].tokens)
 
+\* every application that holds stake serves between 1 and MaximumChains well-formed chains - however it
+\* got them: fresh stake, edit-stake or transfer (valid while the MaximumChains parameter is not lowered)
+Inv_C28_Chains(s, c) ==
+    \A a \in DOMAIN s.app : s.app[a].status # UNSTAKED =>
+        /\ Len(s.app[a].chains) >= 1 /\ Len(s.app[a].chains) <= MaxAppChains(c)
+        /\ \A i \in 1..Len(s.app[a].chains) : ChainIdOK(s.app[a].chains[i])
+
 \* after the EndBlock of a block with time t nothing that was due is still waiting
 Inv_C24_NoOverdue(s, t) == \A a \in DOMAIN s.app : s.app[a].status = UNSTAKING => s.app[a].unstakeAt > t
 
@@ -349,6 +363,16 @@ Step_C28_New(pre, c, tx, post, ok) ==
                /\ BalOf(post, a) = BalOf(pre, a) - tx.fee - tx.amount
                /\ \A b \in DOMAIN pre.app : b \in DOMAIN post.app /\ post.app[b] = pre.app[b]
       /\ ~ok => OnlyFee(pre, tx, post)
+
+\* C28 on the EDIT path: the admission limits that still apply to an already staked application
+\* (the minimum cannot be undercut there: the stake never goes down, C23)
+Step_C28_Edit(pre, c, tx, post, ok) ==
+    LET a == tx.app IN
+    (tx.kind = "app_stake" /\ tx.signer = a /\ a \in DOMAIN pre.app /\ pre.app[a].status = STAKED /\ ok) =>
+      /\ tx.chains # <<>> /\ Len(tx.chains) <= MaxAppChains(c)
+      /\ \A i \in 1..Len(tx.chains) : ChainIdOK(tx.chains[i])
+      /\ Funds(pre, tx, a) >= tx.amount - pre.app[a].tokens          \* funds cover the bump
+      /\ a \in DOMAIN post.app /\ post.app[a].chains = tx.chains
 
 \* C28: transfer to a new key (request = app_stake naming another key, signed by tx.signer)
 Step_C28_Transfer(pre, c, tx, post, ok) ==
